@@ -311,7 +311,8 @@ class Lexer(object):
             )
             is_division_allowed = (
                 check_token is not None and
-                check_token.type in TOKENS_THAT_IMPLY_DIVISON
+                check_token.type in TOKENS_THAT_IMPLY_DIVISON and
+                not getattr(check_token, 'ends_header', False)
             ) and (
                 self.token_stack[-1][0] is None or (
                     # if the token on the stack is the same, the
@@ -381,6 +382,10 @@ class Lexer(object):
                     self.token_stack[-1][1].pop()
                 else:
                     self.token_stack.pop()
+                    # this ')' ends the header of a for/while/if/with;
+                    # what follows is a statement, even if line
+                    # terminators or comments come first.
+                    self.cur_token.ends_header = True
 
             if not self.token_stack:
                 # TODO actually give up earlier than this with the first
